@@ -30,9 +30,9 @@ func exists(lo, hi int, f func(k int) bool) bool {
 // bufOK is the documented size limit of a parse buffer.
 func bufOK(b []byte) bool { return len(b) <= 65535 }
 
-func isWS(c byte) bool   { return c == ' ' || c == '\t' }
-func isCRLF(c byte) bool { return c == '\r' || c == '\n' }
-func isLWSc(c byte) bool { return c == ' ' || c == '\t' || c == '\r' || c == '\n' }
+func isWS(c byte) bool    { return c == ' ' || c == '\t' }
+func isCRLF(c byte) bool  { return c == '\r' || c == '\n' }
+func isLWSc(c byte) bool  { return c == ' ' || c == '\t' || c == '\r' || c == '\n' }
 func isDigit(c byte) bool { return '0' <= c && c <= '9' }
 
 // within reports that field f lies inside [0, hi].
